@@ -321,18 +321,17 @@ def r44(ctx):
             a[0].endswith("make_counterparty_tx_keys(self, remote_per_commitment_point)")
         ctx.ob("R4.4", ok, f"{b.name}/forwards", f"make_counterparty_commitment_tx forwards {a}", where=f"{b.file}:{ln}", sample=a)
     # tx keys roles
-    for fn, want in ((f"{CH}::make_counterparty_tx_keys", ["counterparty_points", "holder_points"]),
-                     (f"{CH}::make_holder_tx_keys", ["holder_points", "counterparty_points"])):
+    # (by the source of each argument, not by the name of the local that carries it)
+    HOLDER, CP = "pubkeys(self.keys)", "counterparty_pubkeys(self)"
+    for fn, want in ((f"{CH}::make_counterparty_tx_keys", [CP, HOLDER]),
+                     (f"{CH}::make_holder_tx_keys", [HOLDER, CP])):
         b = p.fn(fn)
-        fv = fnview(ctx, b).named()
+        fv = fnview(ctx, b)
         for bi, ln, c in R.call_blocks(fv, lambda n: n == f"{CH}::make_tx_keys"):
             a = [render(strip_ref(fv.expr(x))) for x in c.args[2:4]]
-            ctx.ob("R4.4", a == want, f"{fn}/key-roles", f"{fn} calls make_tx_keys(.., {a}) (expected {want})", where=f"{b.file}:{ln}", sample=a)
-        hp = _named(fv, "holder_points")
-        cp = _named(fv, "counterparty_points")
-        ok = hp is not None and "pubkeys(self.keys)" in render(hp) and cp is not None and "counterparty_pubkeys(self)" in render(cp)
-        ctx.ob("R4.4", ok, f"{fn}/point-sources", f"holder_points=`{render(hp) if hp else None}`, counterparty_points=`{render(cp) if cp else None}`",
-               where=f"{b.file}:{b.line}")
+            ok = len(a) == 2 and all(w in x for w, x in zip(want, a))
+            ctx.ob("R4.4", ok, f"{fn}/key-roles", f"{fn} calls make_tx_keys(.., {[x[-60:] for x in a]}) (expected broadcaster <- {want[0]}, "
+                   f"countersignatory <- {want[1]})", where=f"{b.file}:{ln}", sample=[x[-40:] for x in a])
     b = p.fn(f"{CH}::make_tx_keys")
     fv = fnview(ctx, b)
     dn = [d for n, dl in p.by_name.items() if n.endswith("TxCreationKeys::derive_new") for d in dl]
